@@ -185,12 +185,11 @@ def extract(repo):
     tsrc, ttree = _parse(os.path.join(repo, 'plasTeX', 'TeX.py'))
     tex = _class(ttree, 'TeX')
     st, sh = _fil_units(_method(tex, 'readStretch'), 'plus'), _fil_units(_method(tex, 'readShrink'), 'minus')
-    if st != sh:
-        raise Shape('readStretch and readShrink accept different units')
     out['fil_units'] = st
+    out['fil_units_minus'] = sh          # emitted separately: that both are filll, fill, fil is a proof obligation, not a shape
     out['dec_digits'], out['oct_digits'], out['hex_digits'] = _digit_sets(_method(tex, 'readInteger'))
     known = {u for u, _ in out['chain']}
-    for u in out['units'] + out['mu_units'] + out['fil_units']:
+    for u in out['units'] + out['mu_units'] + out['fil_units'] + out['fil_units_minus']:
         if u not in known:
             raise Shape('unit %r accepted by the readers but not handled by dimen.__new__' % u)
     return out
@@ -221,7 +220,7 @@ def generate(repo, gen_dir):
     lines.append(';\n'.join(rows))
     lines.append('].')
     lines.append('')
-    for name, key in (('dimen_units', 'units'), ('mudimen_units', 'mu_units'), ('fil_units', 'fil_units')):
+    for name, key in (('dimen_units', 'units'), ('mudimen_units', 'mu_units'), ('fil_units', 'fil_units'), ('fil_units_minus', 'fil_units_minus')):
         lines.append('Definition %s : list (list Z) := [%s]. (* %s *)' % (name, '; '.join(_s(u) for u in d[key]), ' '.join(d[key])))
     for name, key in (('dec_digits', 'dec_digits'), ('oct_digits', 'oct_digits'), ('hex_digits', 'hex_digits')):
         lines.append('Definition %s : list Z := %s. (* %s *)' % (name, _s(d[key]), d[key]))
